@@ -33,7 +33,9 @@ Latitude (what the property text leaves open; everything else is compared exactl
     multisets of characters; levels themselves are placed by non-overlapping blocks (a sequence cannot put two of its
     bases on one parent base), zero-length blocks in a placement are allowed and carry no base;
   * unstranded child locations: positions compared as sorted lists, strand must stay unstranded, no sequence claim;
-  * zero-width requests (all blocks empty): only len(result) == 0 is demanded;
+  * zero-width requests (child location without a base): an empty answer or an explicit refusal is accepted, a base
+    never is (observed: Parent.lift_child_location_to_parent refuses them with NullParentException because a
+    zero-length Location is falsy in `if not parent.location`);
   * lift_over_to_sequence documents 'must be contiguous' (ValueError).  It is demanded for a location with a real gap
     and must not happen when the location and every intermediate image are gap-free runs without empty blocks; in
     between (an intermediate image is split by a multi-block placement; the location has empty or overlapping blocks)
@@ -65,7 +67,7 @@ RULE = (
     "(cs,ce) x chunk strand over a genome of GC bases x every location of <=KC blocks x both strands, and every window "
     "over random genomes of GR bases with random locations (cutting / missing / spanning / falling into a gap), each "
     "re-lifted onto a second window and the whole chromosome.  A signature is (placement shapes and strands of all "
-    "levels, child shape and strand, child level) resp. (location shape, offset to the window, window length, strands); "
+    "levels, child shape and strand, child level) resp. (location shape and strand, relation to the window, window length, chunk strand); "
     "non-trivial = at least one level is crossed and some placement or the child is multi-block or on the minus "
     "strand, resp. the location has a base inside or next to the window."
 )
@@ -556,7 +558,7 @@ def check_chunk_loc(ctx, case, cp, cp2, whole, lb, ls, k):
     klass = _klass(PL, cs, ce)
     tagov = "overlapping" if ov else "plain"
     det = {"loc": lb, "lstrand": ls, "window": [cs, ce, cst], "klass": klass}
-    ctx.note((G.layout_signature(lb, ls), lb[0][0] - cs, ce - cs, cst), nontrivial=klass != "miss", klass="chunk-" + klass + ("-overlapping" if ov else ""))
+    ctx.note((G.layout_signature(lb, ls), klass, ce - cs, cst), nontrivial=klass != "miss", klass="chunk-" + klass + ("-overlapping" if ov else ""))
     lparent = [None, Parent(id=CHROM, sequence_type=SequenceType.CHROMOSOME)][k % 2]
     L = G.build(lb, ls, parent=lparent)
     if k % 3 == 2:
